@@ -194,7 +194,8 @@ def activate (c : Chan) : R :=
 
 /-- `sign_holder_commitment_tx_phase2(n)` -/
 def signHolder (c : Chan) (n : Nat) : R :=
-  if n + 1 ≠ c.next then fail c .errPolicy                 -- get_current_holder_commitment_info
+  if n + 1 > U64.MAX then fail c .panic                    -- `commitment_number + 1` overflows
+  else if n + 1 ≠ c.next then fail c .errPolicy            -- get_current_holder_commitment_info
   else match c.cur with
   | none => fail c .panic                                   -- `.unwrap()`
   | some _ =>
@@ -256,7 +257,8 @@ def prevPoint (c : Chan) (n : Nat) : Option Nat :=
 /-- `validate_counterparty_revocation(n, secret)`; `pt` = public point of `secret` -/
 def revokeCp (F : Nat → Bytes → Bytes) (c : Chan) (n : Nat) (secret : Bytes) (pt : Nat) : R :=
   -- SimpleValidator::validate_counterparty_revocation
-  if n ≠ c.cpRevoke ∧ n + 1 ≠ c.cpRevoke then fail c .errPolicy
+  if n ≠ c.cpRevoke ∧ n + 1 > U64.MAX then fail c .panic   -- `revoke_num + 1` overflows
+  else if n ≠ c.cpRevoke ∧ n + 1 ≠ c.cpRevoke then fail c .errPolicy
   else if prevPoint c n ≠ some pt then fail c .errPolicy
   else if n > INITIAL then fail c .panic            -- `INITIAL_COMMITMENT_NUMBER - revoke_num`
   else
